@@ -71,6 +71,13 @@ def keys (l : AList β) : List Id := l.map (·.1)
 
 end AList
 
+instance {ε α : Type} [DecidableEq ε] [DecidableEq α] : DecidableEq (Except ε α) := fun a b =>
+  match a, b with
+  | .ok x, .ok y => if h : x = y then isTrue (by rw [h]) else isFalse (fun e => by cases e; exact h rfl)
+  | .error x, .error y => if h : x = y then isTrue (by rw [h]) else isFalse (fun e => by cases e; exact h rfl)
+  | .ok _, .error _ => isFalse (fun e => by cases e)
+  | .error _, .ok _ => isFalse (fun e => by cases e)
+
 /-- handler outcome classes: a reply with an acknowledge code, or the `SxF0` abort sent when the callback raised -/
 inductive Ack
   | code (n : Nat)
